@@ -913,7 +913,8 @@ def x_go_inject_glue():
         raise Broken("broadcastSignature: `ourVAA = v` / `digest := v.SigningMsg()` not found")
     assigns += sorted("broadcastSignature:" + a for a in set(re.findall(r'\bv\.(\w+)\s*=[^=]', bb)))
     out.append("(* handleInjection: digest := v.SigningMsg(); s := Sign(digest.Bytes()); broadcastSignature(v, s, nil); fields of v written on the way: *)\n")
-    out.append("Definition go_injection_writes : list String.string := [%s].\n" % "; ".join('"%s"%%string' % a for a in assigns))
+    out.append("Definition go_injection_writes : list (list byte) := [%s].   (* %s *)\n"
+               % ("; ".join("[" + "; ".join("x%02x" % c for c in a.encode()) + "]" for a in assigns), ", ".join(assigns) or "none"))
     info["injection_writes"] = assigns
     return "".join(out), info
 
@@ -982,6 +983,30 @@ def x_ral_gov_glue():
         raise Broken("parseAndVerifyVAA: quorumSize is not computed from guardianSize / not compared with signatureSize")
     if not re.search(r'let signatureSize = u256From1Byte!\(byteVecSlice!\(data, 5, 6\)\)', pv):
         raise Broken("parseAndVerifyVAA: signatureSize is not read from data[5:6]")
+    # the signature loop: which slot of the stored guardian set a signature is checked against, and how the recovery is called
+    from extract import parse_expr, gallina
+    mk = re.search(r'let guardianKeyIndex = ([^\n]+)\n\s*let guardianKey = byteVecSlice!\(guardians, guardianKeyIndex, ([^\n]+)\)\n', pv)
+    if not mk:
+        raise Broken("parseAndVerifyVAA: `let guardianKeyIndex = ..; let guardianKey = byteVecSlice!(guardians, guardianKeyIndex, ..)` not found")
+    lo = gallina(parse_expr(mk.group(1).strip()), "Z.div")
+    hi = gallina(parse_expr(mk.group(2).strip()), "Z.div", {"guardianKeyIndex": lo})
+    if set(re.findall(r'[A-Za-z_]\w*', mk.group(1))) != {"guardianIndex"}:
+        raise Broken("parseAndVerifyVAA: guardianKeyIndex = %s" % mk.group(1))
+    for pat, what in [(r'let guardianIndex = u256From1Byte!\(byteVecSlice!\(data, offset, offset \+ 1\)\)', "guardianIndex"),
+                      (r'let signature = byteVecSlice!\(data, offset \+ 1, offset \+ 66\)', "signature"),
+                      (r'let recId = u256From1Byte!\(byteVecSlice!\(signature, 64, 65\)\) \+ 27', "recId"),
+                      (r'let newSignature = byteVecSlice!\(signature, 0, 64\) \+\+ u256To1Byte!\(recId\)', "newSignature"),
+                      (r'assert!\(guardianKey == ethEcRecover!\(hash, newSignature\), ErrorCodes\.\w+\)', "recovery assertion"),
+                      (r'let hash = keccak256!\(keccak256!\(body\)\)', "hash"),
+                      (r'assert!\(guardianIndexI256 > lastGuardianIndex, ErrorCodes\.\w+\)\s*\n\s*lastGuardianIndex = guardianIndexI256', "index order"),
+                      (r'for \(let mut sigIndex = 0; sigIndex < signatureSize; sigIndex = sigIndex \+ 1\) \{', "loop header"),
+                      (r'offset = offset \+ 66\s*\n\s*\}', "offset step")]:
+        if len(re.findall(pat, pv)) != 1:
+            raise Broken("parseAndVerifyVAA signature loop: %s statement changed" % what)
+    out.append("(* signature loop: let guardianKeyIndex = %s; let guardianKey = byteVecSlice!(guardians, guardianKeyIndex, %s); "
+               "assert!(guardianKey == ethEcRecover!(hash, signature[0:64] ++ u256To1Byte!(signature[64] + 27))) *)\n"
+               "Definition ral_key_slot (guardianIndex : Z) : Z * Z := (%s, %s).\n" % (mk.group(1).strip(), mk.group(2).strip(), lo, hi))
+    info["key_slot"] = [mk.group(1).strip(), mk.group(2).strip()]
     m = re.search(r'return ([\w, ]+)\s*$', pv.strip())
     if not m:
         raise Broken("parseAndVerifyVAA: final return not found")
